@@ -8,6 +8,7 @@ import (
 	"encoding/json"
 	"fmt"
 	"os"
+	"strings"
 	"testing"
 	"testing/synctest"
 	"time"
@@ -227,7 +228,7 @@ func c10Run(c C10Case) c10Result {
 					next = L.snap + 1
 				}
 			}
-		case "switch":
+		case "switch", "switchsilent":
 			// a new leader: keeps the committed prefix (+ optionally some of the
 			// uncommitted tail), writes its own entries
 			keep := L.commit
@@ -253,6 +254,9 @@ func c10Run(c C10Case) c10Result {
 				L.commit = len(L.log)
 			}
 			next = len(L.log) + 1
+			if s.Op == "switchsilent" {
+				break // this server hears nothing of the new leader yet (it is cut off): its old tail stays
+			}
 			ok, stuck := catchUp(4*len(L.log) + 20)
 			alive = ok
 			if stuck != "" {
@@ -350,6 +354,19 @@ func c10Run(c C10Case) c10Result {
 					_, _ = ae(len(L.log), len(L.log)) // deliver the final commit index
 					wantF := L.foldTo(len(L.log))
 					gotF := h.In.FSM.GetState()
+					// C04: the server answered success for the leader's last entry, so
+					// every entry it still retains is the leader's entry at that index
+					h.W.Mu.Lock()
+					for idx, l := range h.Disk().Logs {
+						if int(idx) > len(L.log) {
+							continue
+						}
+						if want := L.entry(int(idx)); l.Term != want.Term || l.Type != want.Type || string(l.Data) != string(want.Data) {
+							res.viol = append(res.viol, fmt.Sprintf("R1|C04/R1/log-differs-from-leader-after-successful-append|crash at %s: after the catch-up entry %d is %d/%s, the leader holds %d/%s; disk: %s", res.site, idx, l.Term, l.Type, want.Term, want.Type, h.Disk().LogString()))
+							break
+						}
+					}
+					h.W.Mu.Unlock()
 					if gotF.Hash != wantF.Hash || gotF.Count != wantF.Count {
 						res.viol = append(res.viol, fmt.Sprintf("R4|C10/R4/state-after-catch-up-differs-from-leader|crash at %s: FSM %d commands hash %x, leader's committed history %d commands hash %x; disk: %s", res.site, gotF.Count, gotF.Hash, wantF.Count, wantF.Hash, h.Disk().LogString()))
 					}
@@ -368,13 +385,13 @@ func genC10(t *rapid.T) C10Case {
 	c := C10Case{Flavour: rapid.IntRange(0, 3).Draw(t, "flavour"), MaxAppend: rapid.SampledFrom([]int{1, 2, 3, 8}).Draw(t, "maxAppend"),
 		Trailing: rapid.SampledFrom([]uint64{0, 1, 2, 5, 10240}).Draw(t, "trailing")}
 	n := rapid.IntRange(2, 10).Draw(t, "steps")
-	ops := []string{"append", "append", "append", "commit", "commit", "snapshot", "snapshot", "install", "install", "switch", "switch", "vote"}
+	ops := []string{"append", "append", "append", "commit", "commit", "snapshot", "snapshot", "install", "install", "switch", "switch", "switchsilent", "vote"}
 	for i := 0; i < n; i++ {
 		s := C10Step{Op: rapid.SampledFrom(ops).Draw(t, "op")}
 		if s.Op == "append" {
 			s.N = rapid.IntRange(1, 6).Draw(t, "n")
 		}
-		if s.Op == "switch" {
+		if s.Op == "switch" || s.Op == "switchsilent" {
 			s.N = rapid.IntRange(0, 7).Draw(t, "keep") // >= 4: the new leader has committed its entries already
 		}
 		c.Steps = append(c.Steps, s)
@@ -398,10 +415,25 @@ func c10Report(r *rep.Report, c C10Case, v string) {
 
 // TestC10Crash: for every generated stream, every durable operation is a
 // crash point (before and after).
-func TestC10Crash(t *testing.T) {
-	r := rep.New("C10", "crash")
-	r.Extra("test", "TestC10Crash")
+func TestC10Crash(t *testing.T) { c10Crash(t, "C10", "TestC10Crash", "") }
+
+// TestC04Crash: the same crash enumeration judged by the log-matching rule only
+// (what a restarted server answers "success" to leaves its log equal to the leader's).
+func TestC04Crash(t *testing.T) { c10Crash(t, "C04", "TestC04Crash", "C04/") }
+
+// c10Crash: only == "" keeps every rule; otherwise only signatures with that prefix count.
+func c10Crash(t *testing.T, prop, test, only string) {
+	r := rep.New(prop, "crash")
+	r.Extra("test", test)
 	defer r.Flush()
+	first := func(vs []string) string {
+		for _, v := range vs {
+			if only == "" || strings.HasPrefix(splitN(v, "|", 3)[1], only) {
+				return v
+			}
+		}
+		return ""
+	}
 	points := 0
 	rapid.Check(t, func(rt *rapid.T) {
 		if r.Frozen() {
@@ -411,10 +443,10 @@ func TestC10Crash(t *testing.T) {
 		var base c10Result
 		sim.Bubble(t, func() { base = c10Run(c) })
 		r.Case(false, rep.Hash(c.String()), "fault-free")
-		if len(base.viol) > 0 {
-			c10Report(r, c, base.viol[0])
+		if v := first(base.viol); v != "" {
+			c10Report(r, c, v)
 			r.Freeze()
-			rt.Fatalf("%s", base.viol[0])
+			rt.Fatalf("%s", v)
 		}
 		for k := 1; k <= base.durable; k++ {
 			for _, after := range []bool{false, true} {
@@ -427,10 +459,10 @@ func TestC10Crash(t *testing.T) {
 				if res.restored && r.WantSample() && (res.site == "SnapClose@installSnapshot" || res.site == "DeleteRange@appendEntries") {
 					r.Sample(cc.String() + " -> crash at " + res.site)
 				}
-				if len(res.viol) > 0 {
-					c10Report(r, cc, res.viol[0])
+				if v := first(res.viol); v != "" {
+					c10Report(r, cc, v)
 					r.Freeze()
-					rt.Fatalf("%s", res.viol[0])
+					rt.Fatalf("%s", v)
 				}
 			}
 		}
